@@ -10,7 +10,9 @@ package engine
 //@ spec bplc(b txt.Block) int = b.(*txt.block).precedingLineCount
 //@ spec bend(b txt.Block) int = txt.lineEnd(bl(b)[len(bl(b))-1])
 //@ spec btEach(bs []txt.Block, text string) bool = forall(j, 0, len(bs), typeis(bs[j], *txt.block) && len(bl(bs[j])) >= 1 && samearr(bl(bs[j])[0].Text, text))
-//@ spec btChain(bs []txt.Block) bool = forall(j, 0, len(bs)-1, stroff(bl(bs[j+1])[0].Text) == bend(bs[j]) && bplc(bs[j+1]) == bplc(bs[j]) + len(bl(bs[j])))
+//@ spec btChainOff(bs []txt.Block) bool = forall(j, 0, len(bs)-1, stroff(bl(bs[j+1])[0].Text) == bend(bs[j]))
+//@ spec btChainCnt(bs []txt.Block) bool = forall(j, 0, len(bs)-1, bplc(bs[j+1]) == bplc(bs[j]) + len(bl(bs[j])))
+//@ spec btChain(bs []txt.Block) bool = btChainOff(bs) && btChainCnt(bs)
 //@ spec btEnds(bs []txt.Block, text string, n int) bool = implies(len(bs) > 0, stroff(bl(bs[0])[0].Text) == stroff(text) && bplc(bs[0]) == 0 && bend(bs[len(bs)-1]) == stroff(text) + n) && implies(len(bs) == 0, n == 0)
 //@ spec blocksTile(bs []txt.Block, text string, n int) bool = btEach(bs, text) && btChain(bs) && btEnds(bs, text, n)
 //@ spec linesOf(bs []txt.Block) int = ite(len(bs) == 0, 0, bplc(bs[len(bs)-1]) + len(bl(bs[len(bs)-1])))
@@ -22,8 +24,12 @@ package engine
 //@ ensures len(result0) == len(result1) && len(result1) == len(result3) && 0 <= result2 && result2 <= len(text)
 //@ ensures forall(k, 0, len(result1), nonnil(result1[k]) && fresh(result1[k]))
 //@ ensures blocksTile(result1, text, result2)
+// nothing is lost: the blocks cover the whole text, unless the text has no blocks because it is blank
+//@ ensures result2 == len(text) || (len(result1) == 0 && txt.blankOnly(text))
+//@ loop 1 invariant implies(len(blocks) > 0, totalBytesConsumed == len(text) || exists(k, totalBytesConsumed, len(text), txt.nb(text, k)))
 //@ loop 1 invariant btEach(blocks, text)
-//@ loop 1 invariant btChain(blocks)
+//@ loop 1 invariant btChainOff(blocks)
+//@ loop 1 invariant btChainCnt(blocks)
 //@ loop 1 invariant btEnds(blocks, text, totalBytesConsumed)
 //@ loop 1 invariant totalLines == linesOf(blocks)
 //@ loop 1 invariant 0 <= totalBytesConsumed && totalBytesConsumed <= len(text) && len(ts) == len(blocks) && len(blocks) == len(errs)
